@@ -157,15 +157,17 @@ Example c44_frame_exists :
   exists (lam : nat -> R) (T : nat -> nat -> R),
     forall a b, (a < 3)%nat -> (b < 3)%nat -> recompose T lam a b = fict (OF:=ROps) (4, 4)%nat a b.
 Proof.
-  exists (fun i => match i with 0%nat => 1 | 1%nat => -1 | _ => 0 end).
-  exists (fun a i => match a, i with
-                     | 1%nat, 0%nat => / sqrt 2 | 2%nat, 0%nat => / sqrt 2
-                     | 1%nat, 1%nat => / sqrt 2 | 2%nat, 1%nat => - / sqrt 2
-                     | 0%nat, 2%nat => 1 | _, _ => 0 end).
+  set (r := / sqrt 2).
   assert (Hs : sqrt 2 * sqrt 2 = 2) by (apply sqrt_sqrt; lra).
   assert (Hn : sqrt 2 <> 0) by (intro E; rewrite E in Hs; lra).
+  assert (Hr : r * r = / 2).
+  { unfold r. rewrite <- Rinv_mult. rewrite Hs. reflexivity. }
+  exists (fun i => match i with 0%nat => 1 | 1%nat => -1 | _ => 0 end).
+  exists (fun a i => match a, i with
+                     | 1%nat, 0%nat => r | 2%nat, 0%nat => r
+                     | 1%nat, 1%nat => r | 2%nat, 1%nat => - r
+                     | 0%nat, 2%nat => 1 | _, _ => 0 end).
   intros a b Ha Hb.
   destruct a as [|[|[|a]]]; [| | |lia]; destruct b as [|[|[|b]]]; try lia;
-    unfold recompose, sum3; crunch; try field; try exact Hn.
-  all: field_simplify; try exact Hn; rewrite ?Hs; try field; try exact Hn.
+    unfold recompose, sum3; crunch; nra.
 Qed.
